@@ -233,7 +233,7 @@ def _shard_main(args):
 def load_known(pid):
     """known_findings.txt: lines `open: property=<id> sub=<sub> [exc=<T>] [frame=<f>] :: text`
     and `fixed: property=<id> <commit> <text>`. Only `open:` entries suppress anything."""
-    path = os.path.join(ROOT, "known_findings.txt")
+    path = os.environ.get("VERIF_KNOWN") or os.path.join(ROOT, "known_findings.txt")
     out = []
     if not os.path.exists(path):
         return out
